@@ -22,7 +22,8 @@ from vlib.world import Crash
 def _drive(sim, blocks, flush, start, committed):
     '''Advance blocks[start:], flushing per schedule; committed[0] tracks the height of the
     last full flush that returned.  A schedule entry is a string of steps taken after the block:
-    n nothing, h history-only flush, f full flush, r clean restart (only directly after an f: the state is read back from disk).'''
+    n nothing, h history-only flush, f full flush, r clean restart, s re-open for serving as at the first catch-up (both only directly after an f: the state is read
+    back from disk).'''
     for bi in range(start, len(blocks)):
         sim.advance(blocks[bi])
         for fl in (flush[bi] if bi < len(flush) else 'n'):
@@ -33,6 +34,9 @@ def _drive(sim, blocks, flush, start, committed):
                 committed[0] = bi
             elif fl == 'r':
                 sim.open()
+            elif fl == 's':
+                # first catch-up: the databases are closed and re-opened for serving, the block processor carries on
+                chain.run(sim.db.open_for_serving())
     sim.flush(True)
     committed[0] = len(blocks) - 1
 
@@ -120,6 +124,7 @@ def shapes(tier):
         out.append({'blocks': [cbA, sp1A, sp1b], 'flush': list(s) + ['n'], 'crashes': 1})
     # a full flush right after a history-only flush (its history part is empty), a clean restart, then more blocks
     out.append({'blocks': [cbA, sp1A, sp1b], 'flush': ['hfr', 'n', 'n'], 'crashes': 1})
+    out.append({'blocks': [cbA, sp1A, sp1b], 'flush': ['hfs', 'h', 'n'], 'crashes': 1})
     if tier == 'thorough':
         out.append({'blocks': [cbA, sp1A, sp1b], 'flush': ['hfr', 'h', 'n'], 'crashes': 1})
         out.append({'blocks': [cbA, sp1A, sp2], 'flush': ['n', 'hfr', 'h'], 'crashes': 1})
